@@ -28,47 +28,40 @@ Proof. exact trace_dep_carried. Qed.
 Print Assumptions C19_trace_is_carried.
 
 (* a one-dimensional root input x (or, with load_intermediate, any visible one-dimensional source) mapped
-   along axis k - possibly through intermediate element-wise functions - appears on no other axis:
-   every coordinate of o that has x as a source lies on exactly (k,) *)
-Theorem C19_coord_on_exact_axis : forall specs inputs loadable li o k,
+   along axis k - possibly through intermediate element-wise functions - appears as a coordinate on
+   exactly that axis: some coordinate of o lies on (k,) and has x as a source, and every coordinate of o
+   that has x as a source lies on (k,).  `forallb wf_aspec` = array names are identifiers (ArraySpec). *)
+Theorem C19_coord_on_exact_axis : forall specs inputs loadable li o k cs x,
   NoDup (out_names specs) -> consistent (all_aspecs specs) = true ->
-  forall cs x,
+  forallb wf_aspec (all_aspecs specs) = true ->
   one_dimensional specs x -> visible inputs li x = true ->
   In x (carried (trace_fuel specs) specs o k) ->
   coords_of specs inputs loadable li o = Ok cs ->
-  forall c, In c cs -> In x (co_srcs c) -> co_axes c = [k].
-Proof. exact coord_only_on_axis. Qed.
+  (exists c, In c cs /\ co_axes c = [k] /\ In x (co_srcs c))
+  /\ (forall c, In c cs -> In x (co_srcs c) -> co_axes c = [k]).
+Proof. exact coord_on_axis_full. Qed.
 Print Assumptions C19_coord_on_exact_axis.
 
-(* ... and it does appear: some coordinate of o lies on (k,) and has x as a source.
-   Partial: needs that the coordinate names written for o do not collide (dict assignment
-   `coords[name] = ...` would overwrite); C19_coord_names_distinct discharges this for ':'-free names.
-   Full statement: the same without the NoDup hypothesis. *)
-Theorem C19_coord_on_exact_axis_exists_partial : forall specs inputs loadable li o k,
-  NoDup (out_names specs) -> consistent (all_aspecs specs) = true ->
-  forall cs x,
-  one_dimensional specs x -> visible inputs li x = true ->
-  In x (carried (trace_fuel specs) specs o k) ->
-  (forall raw, coords_raw_of specs inputs loadable li o = Ok raw -> NoDup (map co_name raw)) ->
-  coords_of specs inputs loadable li o = Ok cs ->
-  exists c, In c cs /\ co_axes c = [k] /\ In x (co_srcs c).
-Proof. exact coord_on_axis. Qed.
-Print Assumptions C19_coord_on_exact_axis_exists_partial.
-
 (* zipped inputs are combined into ONE coordinate whose name is the ":"-join of all its levels *)
-Theorem C19_zipped_multiindex_partial : forall specs inputs loadable li o k,
+Theorem C19_zipped_multiindex : forall specs inputs loadable li o k cs x z,
   NoDup (out_names specs) -> consistent (all_aspecs specs) = true ->
-  forall cs x z,
+  forallb wf_aspec (all_aspecs specs) = true ->
   one_dimensional specs x -> visible inputs li x = true ->
   one_dimensional specs z -> visible inputs li z = true ->
   In x (carried (trace_fuel specs) specs o k) -> In z (carried (trace_fuel specs) specs o k) ->
   x <> z ->
-  (forall raw, coords_raw_of specs inputs loadable li o = Ok raw -> NoDup (map co_name raw)) ->
   coords_of specs inputs loadable li o = Ok cs ->
   exists c, In c cs /\ co_axes c = [k] /\ In x (co_srcs c) /\ In z (co_srcs c)
             /\ co_name c = join (s ":") (co_srcs c).
-Proof. exact zipped_multiindex. Qed.
-Print Assumptions C19_zipped_multiindex_partial.
+Proof. exact zipped_multiindex_full. Qed.
+Print Assumptions C19_zipped_multiindex.
+
+(* the dict assignment `coords[name] = ...` never overwrites: coordinate names of one output are distinct *)
+Theorem C19_coord_names_distinct : forall specs inputs loadable li o raw,
+  (forall a, In a (all_aspecs specs) -> mem_char ":"%char (aname a) = false) ->
+  coords_raw_of specs inputs loadable li o = Ok raw -> NoDup (map co_name raw).
+Proof. exact coord_names_distinct. Qed.
+Print Assumptions C19_coord_names_distinct.
 
 (* outputs without a MapSpec are assigned as plain variables and never as labelled DataArrays *)
 Theorem C19_unmapped_outputs_plain : forall specs inputs outputs li ds,
@@ -162,10 +155,10 @@ Example C19_example_hypotheses :
   let inputs := [s "x"; s "z"; s "u"] in
   let outputs := [s "r"; s "w"; s "y"] in
   NoDup (out_names ex_specs) /\ consistent (all_aspecs ex_specs) = true
+  /\ forallb wf_aspec (all_aspecs ex_specs) = true
   /\ one_dimensional ex_specs (s "x") /\ one_dimensional ex_specs (s "z")
   /\ In (s "x") (carried (trace_fuel ex_specs) ex_specs (s "r") (s "i"))
   /\ In (s "z") (carried (trace_fuel ex_specs) ex_specs (s "r") (s "i"))
-  /\ (forall raw, coords_raw_of ex_specs inputs outputs true (s "r") = Ok raw -> NoDup (map co_name raw))
   /\ coords_of ex_specs inputs outputs true (s "w")
      = Ok [ {| co_name := s "x:z"; co_axes := [s "i"]; co_srcs := [s "x"; s "z"] |};
             {| co_name := s "u"; co_axes := [s "j"]; co_srcs := [s "u"] |} ]
@@ -177,5 +170,4 @@ Proof.
   - intros a Ha E. vm_compute in Ha. repeat (destruct Ha as [<-|Ha]; [try discriminate E; reflexivity|]). destruct Ha.
   - vm_compute. auto.
   - vm_compute. auto.
-  - intros raw H. vm_compute in H. injection H as <-. apply nodup_str_NoDup. reflexivity.
 Qed.
